@@ -21,7 +21,8 @@ Record ocase := OCase {
   oc_seen : list Z;
   oc_final : list (nat * (bool * bool * bool) * bool * nat);   (* name class, has key/crt/meta, match, cert id *)
   oc_rwleft : nat; oc_last : bool; oc_held : nat; oc_recorded : nat;
-  oc_dead : bool     (* the driver found a request waiting for a lock that nobody held any more *)
+  oc_dead : bool;    (* the driver found a request waiting for a lock that nobody held any more *)
+  oc_after : nat     (* locks still held + still recorded after CleanUpOwnLocks has run at the end *)
 }.
 
 (** * Equality tests *)
@@ -208,8 +209,11 @@ Definition s4_ok (c : ocase) : bool :=
 Definition unlock_faulted (c : ocase) : bool :=
   existsb (fun o => is_unlock (o_op o) && (fault_eqb (o_fault o) FErr || fault_eqb (o_fault o) FPanic)) (oc_steps c).
 Definition rescued (c : ocase) : bool := oc_dead c.
+(** ... and whatever is still held (after a failed Unlock) is recorded, so that CleanUpOwnLocks
+    releases it: nothing is held or recorded after it has run (theorem [held_is_recorded]) *)
 Definition s9_ok (c : ocase) : bool :=
-  unlock_faulted c || (Nat.eqb (oc_held c) 0 && Nat.eqb (oc_recorded c) 0 && negb (rescued c)).
+  (unlock_faulted c || (Nat.eqb (oc_held c) 0 && Nat.eqb (oc_recorded c) 0 && negb (rescued c))) &&
+  Nat.eqb (oc_after c) 0.
 
 Definition spec_ok (c : ocase) : bool :=
   match oc_mode c with
@@ -282,8 +286,8 @@ Definition get_case : dec ocase :=
   res <- get_list get_z ;;
   sn <- get_list get_z ;;
   fin <- get_list get_final ;;
-  rw <- get_nat ;; la <- get_bool ;; held <- get_nat ;; rec <- get_nat ;; dead <- get_bool ;;
-  ret (OCase mode cfgs ini steps res sn fin rw la held rec dead).
+  rw <- get_nat ;; la <- get_bool ;; held <- get_nat ;; rec <- get_nat ;; dead <- get_bool ;; after <- get_nat ;;
+  ret (OCase mode cfgs ini steps res sn fin rw la held rec dead after).
 
 Definition check_line (l : list Z) : Z :=
   match decode get_case l with
